@@ -181,6 +181,26 @@ def check_file(rep, prog):
               "header start bytes changed: %r" % (st,))
 
 
+def check_cli_output(rep, prog):
+    """the dump CLI prints exactly the lines it got: one print per line, hence nothing at all for an empty result"""
+    rule = "C17.R4.empty-and-files"
+    q = DQ + "main"
+    if not prog.has_func(q):
+        return
+    I = Interpreter(prog, hooks={"opaque": {DQ + "parse_dump_file", DQ + "parse_args"}})
+    I.call(q, [])
+    res = [x for e in I.events if e.kind == "opaquecall" and e.data[0] == DQ + "parse_dump_file"
+           for x in [Op("call:" + DQ + "parse_dump_file", *e.data[1])]]
+    outs = [e for e in I.events if e.kind == "print" and not dict(e.data[1]).get("file")]
+    ok = bool(res) and bool(outs)
+    for e in outs:
+        inl = [L for L in e.loops if L.iter == res[0]] if res else []
+        ok = ok and bool(inl) and len(e.data[0]) == 1 and e.data[0][0] == Op("elem", res[0], inl[-1].idx) and not dict(e.data[1]).get("end")
+    rep.check(ok, rule, "the CLI prints each returned line with its own print(): no output for an empty result", q, "for line in lines: print(line)",
+              "the dump CLI does not print the returned lines one by one (e.g. one print of a joined text): an empty or unparsable dump "
+              "file produces a blank line instead of no output")
+
+
 def run(rep, prog, thorough):
     rep.explanation = (
         "parse_dump_data is interpreted with the region formatters opaque: search keys and the offset filter are checked as "
@@ -191,5 +211,6 @@ def run(rep, prog, thorough):
     check_split(rep, prog)
     check_formatters(rep, prog)
     check_file(rep, prog)
+    check_cli_output(rep, prog)
     from ..effects import check_no_memoised
     check_no_memoised(rep, prog, 'C17.R3.region-decoders', ['io_drawer'], 'results of an earlier decode are reused')
